@@ -17,15 +17,22 @@ ATTR = {
 }
 WEAK = {
     "Reapers_WeakExpireEarly.cfg": "Inv_C16_Expiration",
+    "Reapers_WeakExpireRound.cfg": "Inv_C16_Expiration",
     "Reapers_WeakExpireNever.cfg": "Inv_C16_Expiration",
     "Reapers_WeakGcProvList.cfg": "Inv_C16_GarbageCollection",
+    "Reapers_WeakGcProvListNotFound.cfg": "Inv_C16_GarbageCollection",
     "Reapers_WeakGcLookup.cfg": "Inv_C16_GarbageCollection",
+    "Reapers_WeakGcLookupNotFound.cfg": "Inv_C16_GarbageCollection",
     "Reapers_WeakGcReady.cfg": "Inv_C16_GarbageCollection",
     "Reapers_WeakLive.cfg": "Inv_C16_Liveness",
+    "Reapers_WeakLiveRound.cfg": "Inv_C16_Liveness",
     "Reapers_WeakRepairEarly.cfg": "Inv_C16_Repair",
+    "Reapers_WeakRepairRound.cfg": "Inv_C16_Repair",
     "Reapers_WeakRepairExtra.cfg": "Inv_C16_Repair",
     "Reapers_WeakRepairScope.cfg": "Inv_C16_Repair",
     "Reapers_WeakRepairList.cfg": "Inv_C16_Repair",
+    "Reapers_WeakRepairListNotFound.cfg": "Inv_C16_Repair",
+    "Reapers_WeakRepairTerminating.cfg": "Inv_C16_Repair",
 }
 REAPERS = {"nodeclaim.expiration": "expiration", "nodeclaim.garbagecollection": "gc", "node.health": "repair",
            "nodeclaim.lifecycle": "liveness"}
@@ -127,6 +134,11 @@ def fault(verb, kind, nth=1, err="Server", sub="-"):
     return {"verb": verb, "kind": kind, "sub": sub, "nth": nth, "err": err}
 
 
+def tick(tms):
+    """absolute instant in milliseconds since the scenario epoch"""
+    return {"a": "Tick", "to": tms // 1000, "ms": tms % 1000}
+
+
 def claim_step(name, pool, ea, pid, launched="True", registered="True", instance=True, **kw):
     st = {"a": "Claim", "name": name, "pool": pool, "expireAfter": ea, "launched": launched, "registered": registered,
           "pid": pid, "instance": instance}
@@ -134,8 +146,8 @@ def claim_step(name, pool, ea, pid, launched="True", registered="True", instance
     return st
 
 
-def node_step(name, pid, pool, ready="True", conds=None):
-    return {"a": "Node", "name": name, "pid": pid, "pool": pool, "ready": ready, "conds": conds or {}}
+def node_step(name, pid, pool, ready="True", conds=None, deleting=False):
+    return {"a": "Node", "name": name, "pid": pid, "pool": pool, "ready": ready, "conds": conds or {}, "deleting": deleting}
 
 
 def bgname(sc, i):
@@ -147,11 +159,17 @@ def policies(k):
             {"type": "BadDisk", "status": "True", "toleration": k["TolDisk"]}]
 
 
+# the kind dimension of a failing read: what the injected error is typed as
+API_KIND = {"generic": ["Server", "Server", "TooManyRequests", "Conflict"], "notfound": ["NotFound"]}
+PROV_KIND = {"generic": ["err"], "notfound": ["notfound", "notfoundWrapped"]}
+LOOKUP_KIND = {"generic": ["Server", "Timeout", "TooManyRequests"], "notfound": ["NotFound"]}
+
+
 def from_model(h, k, rng):
     """Translate a history of Reapers.tla (constants k) into driver steps."""
     init = h[0]
     assert init["a"] == "Init"
-    bg = {"p": [init["pt"], init["pu"]], "o": [init["ot"], init["ou"]]}
+    bg = {"p": [init["pt"], init["pu"], init["pd"]], "o": [init["ot"], init["ou"], init["od"]]}
     steps = [{"a": "Pool", "name": "p"}]
     for c in k["Claims"]:
         a = ATTR[c]
@@ -163,44 +181,47 @@ def from_model(h, k, rng):
             steps.append(claim_step(c, a["pool"], ea, "", launched="Unknown", registered="Unknown", instance=False))
     for sc, pool in (("p", "p"), ("o", "")):
         for i in range(1, bg[sc][0] + 1):
-            steps.append(node_step(bgname(sc, i), bgname(sc, i), pool, "True", {"BadDisk": "True" if i <= bg[sc][1] else "False"}))
-    err = lambda: rng.choice(["Server", "Server", "TooManyRequests", "Conflict"])
+            steps.append(node_step(bgname(sc, i), bgname(sc, i), pool, "True", {"BadDisk": "True" if i <= bg[sc][1] else "False"},
+                                   deleting=(i <= bg[sc][2])))
+    werr = lambda: rng.choice(["Server", "Server", "TooManyRequests", "Conflict"])    # failing writes
     launched = {c: ATTR[c]["reg"] for c in k["Claims"]}
     for e in h[1:]:
         a = e["a"]
         c = e.get("c")
         f = e.get("f", "none")
+        kind = e.get("k", "generic")
         n0 = len(steps)
         if a == "Tick":
-            steps.append({"a": "Tick", "to": e["to"]})
+            steps.append(tick(e["tms"]))
         elif a == "Expire":
-            steps.append({"a": "Expire", "name": c, "faults": [fault("delete", "NodeClaim", 1, err())] if f == "delete" else []})
+            steps.append({"a": "Expire", "name": c, "faults": [fault("delete", "NodeClaim", 1, werr())] if f == "delete" else []})
         elif a == "Gc":
-            st = {"a": "Gc", "faults": [], "prov": "ok", "lookupFail": [ATTR[x]["pid"] for x in e.get("lf", [])]}
+            st = {"a": "Gc", "faults": [], "prov": "ok", "lookupFail": [ATTR[x]["pid"] for x in e.get("lf", [])],
+                  "lookupErr": rng.choice(LOOKUP_KIND[kind])}
             if f == "claimList":
-                st["faults"] = [fault("list", "NodeClaim", 1, err())]
+                st["faults"] = [fault("list", "NodeClaim", 1, rng.choice(API_KIND[kind]))]
             elif f == "provList":
-                st["prov"] = "err"
+                st["prov"] = rng.choice(PROV_KIND[kind])
             elif f == "delete":
-                st["faults"] = [fault("delete", "NodeClaim", 0, err())]
+                st["faults"] = [fault("delete", "NodeClaim", 0, werr())]
             steps.append(st)
         elif a == "Live":
             st = {"a": "Live", "name": c, "faults": [], "prov": "ok" if launched[c] else "err"}
             if f == "poolGet":
-                st["faults"] = [fault("get", "NodePool", 1, "Server")]
+                st["faults"] = [fault("get", "NodePool", 1, "NotFound" if kind == "notfound" else rng.choice(["Server", "TooManyRequests"]))]
             elif f == "delete":
-                st["faults"] = [fault("delete", "NodeClaim", 1, err())]
+                st["faults"] = [fault("delete", "NodeClaim", 1, werr())]
             steps.append(st)
         elif a == "Repair":
             st = {"a": "Repair", "name": ATTR[c]["node"], "faults": []}
             if f == "claimList":
-                st["faults"] = [fault("list", "NodeClaim", 1, err())]
+                st["faults"] = [fault("list", "NodeClaim", 1, rng.choice(API_KIND[kind]))]
             elif f == "nodeList":
-                st["faults"] = [fault("list", "Node", 1, err())]
+                st["faults"] = [fault("list", "Node", 1, rng.choice(API_KIND[kind]))]
             elif f == "annotate":
-                st["faults"] = [fault("patch", "NodeClaim", 1, err())]
+                st["faults"] = [fault("patch", "NodeClaim", 1, werr())]
             elif f == "delete":
-                st["faults"] = [fault("delete", "NodeClaim", 1, err())]
+                st["faults"] = [fault("delete", "NodeClaim", 1, werr())]
             steps.append(st)
         elif a == "InstanceVanishes":
             steps.append({"a": "InstanceGone", "pid": ATTR[c]["pid"]})
@@ -210,14 +231,19 @@ def from_model(h, k, rng):
             steps.append({"a": "SetCond", "name": ATTR[c]["node"], "type": "BadDisk", "status": e["s"]})
         elif a == "NodeGone":
             steps.append({"a": "NodeGone", "name": ATTR[c]["node"]})
+        elif a == "NodeTerminating":
+            steps.append({"a": "NodeDelete", "name": ATTR[c]["node"]})
         elif a == "BgFlip":
             sc, d = e["sc"], e["d"]
             if d > 0:
                 bg[sc][1] += 1
                 steps.append({"a": "SetCond", "name": bgname(sc, bg[sc][1]), "type": "BadDisk", "status": "True"})
-            else:
+            elif d < 0:
                 steps.append({"a": "SetCond", "name": bgname(sc, bg[sc][1]), "type": "BadDisk", "status": "False"})
                 bg[sc][1] -= 1
+            else:       # an unhealthy node repaired in an earlier wave is now terminating
+                bg[sc][2] += 1
+                steps.append({"a": "NodeDelete", "name": bgname(sc, bg[sc][2])})
         elif a == "UserDelete":
             steps.append({"a": "UserDelete", "name": c})
         elif a == "Launched":
@@ -260,171 +286,204 @@ def simulate(run, nsim, per_prefix, rng):
 # ---------------------------------------------------------------------- systematic placement
 POL2 = [{"type": "Ready", "status": "False", "toleration": 120}, {"type": "Ready", "status": "Unknown", "toleration": 90},
         {"type": "BadDisk", "status": "True", "toleration": 60}]
+# clock positions around every threshold T, in milliseconds relative to it: a rounded / truncated / early clock reading
+# shows within the last second before T
+OFFS = (-1000, -501, -500, -1, 0, 1, 500)
+OFFS_FAULT = (-1, 0)
 
 
 def ceil20(n):
     return (n + 4) // 5
 
 
+def approach(steps, T, off, rec):
+    """after the reconcile at T+off (off < 0): reconcile again 1 ms before the threshold, then exactly at it"""
+    if off < -1:
+        steps += [tick(T - 1), dict(rec)]
+    if off < 0:
+        steps += [tick(T), dict(rec)]
+
+
 def sys_expiration(tier, rng):
     behs = []
-    FAR = 2000000
+    FAR = 1000000 * 1000
     for ea in (-1, 0, 45, 600):
         for created in (0, 7):
             for variant in ("plain", "nofinalizer", "deletefail", "stale", "userdeleted", "unmanaged"):
                 if tier == "quick" and variant in ("nofinalizer", "unmanaged") and created == 7:
                     continue
-                offs = (-1, 0, 1) if ea > 0 else ((0, 1) if ea == 0 else (0,))
+                if ea > 0:
+                    offs = OFFS if variant == "plain" else ((-500, -1, 0) if tier != "quick" else OFFS_FAULT)
+                else:
+                    offs = (0, 1, 500) if ea == 0 else (0,)
                 for off in offs:
                     steps = [{"a": "Pool", "name": "p"}]
                     if created:
-                        steps.append({"a": "Tick", "to": created})
+                        steps.append(tick(created * 1000))
                     steps.append(claim_step("c1", "p", ea, "i1", noFinalizer=(variant == "nofinalizer"), unmanaged=(variant == "unmanaged")))
                     steps.append(node_step("n1", "i1", "p"))
-                    t = (created + ea + off) if ea >= 0 else FAR
+                    T = (created + ea) * 1000
+                    t = T + off if ea >= 0 else FAR
                     if variant == "stale":
                         steps.append({"a": "Expire", "name": "c1"})
                     if variant == "userdeleted":
                         steps.append({"a": "UserDelete", "name": "c1"})
-                    if t > created:
-                        steps.append({"a": "Tick", "to": t})
+                    if t > created * 1000:
+                        steps.append(tick(t))
                     ex = {"a": "Expire", "name": "c1", "faults": []}
                     if variant == "deletefail":
                         ex["faults"] = [fault("delete", "NodeClaim", 1, rng.choice(["Server", "Conflict", "NotFound"]))]
                     if variant == "stale":
                         ex["stale"] = 1
                     steps += [ex, {"a": "Expire", "name": "c1"}]
-                    if off < 0:   # then cross the threshold second by second
-                        steps += [{"a": "Tick", "to": t + 1}, {"a": "Expire", "name": "c1"}]
+                    if ea >= 0:
+                        approach(steps, T, off, {"a": "Expire", "name": "c1"})
                     steps.append({"a": "Restart"})
                     steps.append({"a": "Expire", "name": "c1"})
-                    behs.append({"cfg": {"policies": []}, "steps": steps, "tag": "exp:%s:ea%d:c%d:%+d" % (variant, ea, created, off)})
+                    behs.append({"cfg": {"policies": []}, "steps": steps, "tag": "exp:%s:ea%d:c%d:%+dms" % (variant, ea, created, off)})
     return behs
+
+
+# a failure at each read of the collector x the kind of the error
+GC_FAULTS = ["none", "claimList:Server", "claimList:NotFound", "provList:err", "provList:notfound", "provList:notfoundWrapped",
+             "lookup:Server", "lookup:NotFound", "lookup:Timeout", "lookupAll:Server", "lookupAll:NotFound", "delete", "delete404"]
+
+
+def gc_step(f, rng):
+    g = {"a": "Gc", "faults": [], "prov": "ok", "lookupFail": []}
+    name, _, kind = f.partition(":")
+    if name == "claimList":
+        g["faults"] = [fault("list", "NodeClaim", 1, kind)]
+    elif name == "provList":
+        g["prov"] = kind
+    elif name == "lookup":
+        g["lookupFail"], g["lookupErr"] = ["i1"], kind
+    elif name == "lookupAll":
+        g["lookupFail"], g["lookupErr"] = ["*"], kind
+    elif name == "delete":
+        g["faults"] = [fault("delete", "NodeClaim", 0, rng.choice(["Server", "Conflict"]))]
+    elif name == "delete404":
+        g["faults"] = [fault("delete", "NodeClaim", 0, "NotFound")]
+    return g
 
 
 def sys_gc(tier, rng):
     behs = []
-    node_states = ["True", "False", "Unknown", "", "absent", "gone-later", "duplicate"]
-    faults = ["none", "claimList", "provList", "lookup", "lookupAll", "delete", "delete404"]
+    node_states = ["True", "False", "Unknown", "", "absent", "gone-later", "duplicate", "terminating"]
     for registered in ("True", "Unknown", "False"):
         for inst in ("listed", "gone", "never"):
             for ns in node_states:
-                for f in faults:
-                    if registered != "True" and (f not in ("none", "lookupAll") or ns not in ("True", "absent")):
+                for f in GC_FAULTS:
+                    if registered != "True" and (f not in ("none", "lookupAll:Server", "provList:notfound") or ns not in ("True", "absent")):
                         continue
-                    if tier == "quick" and inst == "never" and f not in ("none", "lookup"):
+                    if tier == "quick" and inst == "never" and f not in ("none", "lookup:Server", "provList:notfound"):
+                        continue
+                    if tier == "quick" and ns in ("gone-later", "duplicate", "terminating", "") and f.endswith((":Timeout", "Wrapped", "lookupAll:NotFound")):
                         continue
                     steps = [{"a": "Pool", "name": "p"},
                              claim_step("c1", "p", -1, "i1", registered=registered, instance=(inst != "never")),
                              claim_step("c2", "", 600, "i2"), node_step("n2", "i2", "")]
                     if ns not in ("absent",):
-                        steps.append(node_step("n1", "i1", "p", ready="True" if ns in ("gone-later", "duplicate") else ns))
+                        steps.append(node_step("n1", "i1", "p", ready="True" if ns in ("gone-later", "duplicate", "terminating") else ns,
+                                               deleting=(ns == "terminating")))
                     if ns == "duplicate":
                         steps.append(node_step("n1b", "i1", "p", ready="True"))
-                    steps.append({"a": "Tick", "to": 30})
+                    steps.append(tick(30000))
                     steps.append({"a": "Gc"})
                     if inst == "gone":
                         steps.append({"a": "InstanceGone", "pid": "i1"})
                     if ns == "gone-later":
                         steps.append({"a": "NodeGone", "name": "n1"})
-                    g = {"a": "Gc", "faults": [], "prov": "ok", "lookupFail": []}
-                    if f == "claimList":
-                        g["faults"] = [fault("list", "NodeClaim", 1)]
-                    elif f == "provList":
-                        g["prov"] = "err"
-                    elif f == "lookup":
-                        g["lookupFail"] = ["i1"]
-                    elif f == "lookupAll":
-                        g["lookupFail"] = ["*"]
-                    elif f == "delete":
-                        g["faults"] = [fault("delete", "NodeClaim", 0, rng.choice(["Server", "Conflict"]))]
-                    elif f == "delete404":
-                        g["faults"] = [fault("delete", "NodeClaim", 0, "NotFound")]
-                    steps += [g, {"a": "Tick", "to": 150}, {"a": "Gc"}]
+                    steps += [gc_step(f, rng), tick(150000), {"a": "Gc"}]
                     behs.append({"cfg": {"policies": []}, "steps": steps, "tag": "gc:%s:%s:%s:%s" % (registered, inst, ns or "nocond", f)})
     # several candidates in one pass (parallel workers): ready / not ready / absent node / still listed / deleting
     multi = [("a", "True"), ("b", "False"), ("c", "absent"), ("d", "True"), ("e", "Unknown")]
     lfs = [[], ["ia"], ["ib"], ["ic"], ["ia", "ib", "ic"], ["*"]]
     for lf in lfs:
         for listed_d in (True, False):
-            steps = [{"a": "Pool", "name": "p"}]
-            for x, ns in multi:
-                steps.append(claim_step("c" + x, "p" if x in "abc" else "", -1, "i" + x))
-                if ns != "absent":
-                    steps.append(node_step("n" + x, "i" + x, "p" if x in "abc" else "", ready=ns))
-            steps.append({"a": "UserDelete", "name": "ce"})
-            for x, _ in multi:
-                if x != "d" or not listed_d:
-                    steps.append({"a": "InstanceGone", "pid": "i" + x})
-            steps += [{"a": "Gc", "lookupFail": lf}, {"a": "Gc"}]
-            behs.append({"cfg": {"policies": []}, "steps": steps, "tag": "gc-multi:%s:%s" % ("+".join(lf) or "none", listed_d)})
+            for kind in ("Server", "NotFound"):
+                if not lf and kind != "Server":
+                    continue
+                steps = [{"a": "Pool", "name": "p"}]
+                for x, ns in multi:
+                    steps.append(claim_step("c" + x, "p" if x in "abc" else "", -1, "i" + x))
+                    if ns != "absent":
+                        steps.append(node_step("n" + x, "i" + x, "p" if x in "abc" else "", ready=ns))
+                steps.append({"a": "UserDelete", "name": "ce"})
+                for x, _ in multi:
+                    if x != "d" or not listed_d:
+                        steps.append({"a": "InstanceGone", "pid": "i" + x})
+                steps += [{"a": "Gc", "lookupFail": lf, "lookupErr": kind}, {"a": "Gc"}]
+                behs.append({"cfg": {"policies": []}, "steps": steps, "tag": "gc-multi:%s:%s:%s" % ("+".join(lf) or "none", kind, listed_d)})
     return behs
+
+
+TOL = {"BadDisk": 60, "ReadyFalse": 120, "ReadyUnknown": 90}
+REPAIR_FAULTS = {
+    "claimList": lambda rng: fault("list", "NodeClaim", 1, rng.choice(["Server", "TooManyRequests"])),
+    "claimList404": lambda rng: fault("list", "NodeClaim", 1, "NotFound"),
+    "nodeList": lambda rng: fault("list", "Node", 1, rng.choice(["Server", "TooManyRequests"])),
+    "nodeList404": lambda rng: fault("list", "Node", 1, "NotFound"),
+    "nodeListConflict": lambda rng: fault("list", "Node", 1, "Conflict"),
+    "annotate": lambda rng: fault("patch", "NodeClaim", 1, rng.choice(["Server", "Conflict"])),
+    "delete": lambda rng: fault("delete", "NodeClaim", 1, rng.choice(["Server", "Conflict"])),
+    "poolGet": lambda rng: fault("get", "NodePool", 1),
+}
+
+
+def repair_step(name, f, rng):
+    return {"a": "Repair", "name": name, "faults": [REPAIR_FAULTS[f](rng)] if f != "none" else []}
 
 
 def sys_repair(tier, rng):
     behs = []
-    tol = {"BadDisk": 60, "ReadyFalse": 120, "ReadyUnknown": 90}
 
-    def scenario(kind, n, u, off, f, others=(0, 0), cond="BadDisk", tag=""):
-        """focal node n1 (claim c1) unhealthy since t=10; scope of `n` nodes of which `u` unhealthy (focal included);
-        others = (healthy, unhealthy) nodes outside the scope (pool claims only)."""
+    def scenario(kind, n, u, off, f, others=(0, 0), cond="BadDisk", term=0, tag=""):
+        """focal node n1 (claim c1) unhealthy since t=10 s; scope of `n` nodes of which `u` unhealthy (focal included), the
+        last `term` of the other unhealthy ones already terminating; others = (healthy, unhealthy) nodes outside the scope
+        (pool claims only); off = clock offset in ms relative to the instant the toleration elapses."""
         pool = "p" if kind == "pool" else ""
         steps = [{"a": "Pool", "name": "p"}, {"a": "Pool", "name": "q"},
                  claim_step("c1", pool, -1, "i1"), node_step("n1", "i1", pool, "True", {"BadDisk": "False"})]
         # the rest of the scope: for a standalone claim the cluster = labelled and unlabelled nodes alike
         for i in range(2, n + 1):
             p_i = pool if kind == "pool" else ("q" if i % 2 else "")
-            steps.append(node_step("m%02d" % i, "j%02d" % i, p_i, "True", {"BadDisk": "True" if i <= u else "False"}))
+            steps.append(node_step("m%02d" % i, "j%02d" % i, p_i, "True", {"BadDisk": "True" if i <= u else "False"},
+                                   deleting=(i <= u and i > u - term)))
         if kind == "pool":
             for i in range(others[0] + others[1]):
                 steps.append(node_step("x%02d" % i, "y%02d" % i, "q" if i % 2 else "", "True",
                                        {"BadDisk": "True" if i >= others[0] else "False"}))
-        steps.append({"a": "Tick", "to": 10})
+        steps.append(tick(10000))
+        bad = {"a": "SetCond", "name": "n1", "type": "BadDisk", "status": "True"}
         if cond == "BadDisk":
-            steps.append({"a": "SetCond", "name": "n1", "type": "BadDisk", "status": "True"})
-            t = 10 + tol["BadDisk"]
+            steps.append(bad)
+            t = 10 + TOL["BadDisk"]
         elif cond == "ReadyFalse":
             steps.append({"a": "SetCond", "name": "n1", "type": "Ready", "status": "False"})
-            t = 10 + tol["ReadyFalse"]
+            t = 10 + TOL["ReadyFalse"]
         elif cond == "ReadyUnknown":
             steps.append({"a": "SetCond", "name": "n1", "type": "Ready", "status": "Unknown"})
-            t = 10 + tol["ReadyUnknown"]
+            t = 10 + TOL["ReadyUnknown"]
         elif cond == "both":      # BadDisk at 10 (due 70), Ready=False at 20 (due 140): the earliest counts
-            steps += [{"a": "SetCond", "name": "n1", "type": "BadDisk", "status": "True"}, {"a": "Tick", "to": 20},
-                      {"a": "SetCond", "name": "n1", "type": "Ready", "status": "False"}]
-            t = 10 + tol["BadDisk"]
-        elif cond == "flap":      # unhealthy at 10, recovers at 40, unhealthy again at 50: due 110
-            steps += [{"a": "SetCond", "name": "n1", "type": "BadDisk", "status": "True"}, {"a": "Tick", "to": 40},
-                      {"a": "SetCond", "name": "n1", "type": "BadDisk", "status": "False"}, {"a": "Tick", "to": 50},
-                      {"a": "SetCond", "name": "n1", "type": "BadDisk", "status": "True"}]
-            t = 50 + tol["BadDisk"]
+            steps += [bad, tick(20000), {"a": "SetCond", "name": "n1", "type": "Ready", "status": "False"}]
+            t = 10 + TOL["BadDisk"]
+        elif cond == "flap":      # unhealthy at 10, recovers at 40, unhealthy again at 50.3 (stamped 50): due 110
+            steps += [bad, tick(40000), {"a": "SetCond", "name": "n1", "type": "BadDisk", "status": "False"}, tick(50300), dict(bad)]
+            t = 50 + TOL["BadDisk"]
         elif cond == "cleared":   # recovers before the toleration elapses
-            steps += [{"a": "SetCond", "name": "n1", "type": "BadDisk", "status": "True"}, {"a": "Tick", "to": 40},
-                      {"a": "SetCond", "name": "n1", "type": "BadDisk", "status": "False"}]
-            t = 10 + tol["BadDisk"]
+            steps += [bad, tick(40000), {"a": "SetCond", "name": "n1", "type": "BadDisk", "status": "False"}]
+            t = 10 + TOL["BadDisk"]
+        T = t * 1000
         steps.append({"a": "Repair", "name": "n1"})
-        steps.append({"a": "Tick", "to": t + off})
-        r = {"a": "Repair", "name": "n1", "faults": []}
-        if f == "claimList":
-            r["faults"] = [fault("list", "NodeClaim", 1)]
-        elif f == "nodeList":
-            r["faults"] = [fault("list", "Node", 1, rng.choice(["Server", "TooManyRequests"]))]
-        elif f == "nodeList404":
-            r["faults"] = [fault("list", "Node", 1, "NotFound")]
-        elif f == "annotate":
-            r["faults"] = [fault("patch", "NodeClaim", 1, rng.choice(["Server", "Conflict"]))]
-        elif f == "delete":
-            r["faults"] = [fault("delete", "NodeClaim", 1, rng.choice(["Server", "Conflict"]))]
-        elif f == "poolGet":
-            r["faults"] = [fault("get", "NodePool", 1)]
-        steps.append(r)
-        steps.append({"a": "Repair", "name": "n1"})
-        if off < 0:
-            steps += [{"a": "Tick", "to": t}, {"a": "Repair", "name": "n1"}]
+        steps.append(tick(T + off))
+        steps += [repair_step("n1", f, rng), {"a": "Repair", "name": "n1"}]
+        approach(steps, T, off, {"a": "Repair", "name": "n1"})
         behs.append({"cfg": {"policies": POL2}, "steps": steps,
-                     "tag": "repair:%s:n%d:u%d:%+d:%s:%s%s" % (kind, n, u, off, f, cond, tag)})
+                     "tag": "repair:%s:n%d:u%d:term%d:%+dms:%s:%s%s" % (kind, n, u, term, off, f, cond, tag)})
 
-    # (a) the 20 % grid: pool sizes 1..11 x unhealthy counts around the ceiling, at the toleration instant
+    # (a) the 20 % grid: pool sizes 1..11 x unhealthy counts around the ceiling, at the toleration instant; the same
+    #     counts with some of the unhealthy nodes already terminating (they still exist, so they still count)
     for kind in ("pool", "standalone"):
         for n in range(1, 12):
             c = ceil20(n)
@@ -432,85 +491,139 @@ def sys_repair(tier, rng):
                 fs = ["none"] if (tier == "quick" and u not in (c, c + 1)) else ["none", "nodeList", "nodeList404"]
                 for f in fs:
                     scenario(kind, n, u, 0, f)
+                for term in sorted({1, u - 1}):
+                    if 1 <= term <= u - 1 and (tier != "quick" or u in (c, c + 1, c + 2)):
+                        scenario(kind, n, u, 0, "none", term=term)
                 # nodes outside the pool must not dilute (or burden) the pool's ratio
                 if kind == "pool" and u in (c, c + 1):
                     scenario(kind, n, u, 0, "none", others=(9, 0), tag=":others-healthy")
                     scenario(kind, n, u, 0, "none", others=(0, 4), tag=":others-unhealthy")
-    # (b) the toleration threshold: every condition shape x offset x fault
+    # (b) the toleration threshold: every condition shape x sub-second offset x fault
     for kind in ("pool", "standalone"):
         for cond in ("BadDisk", "ReadyFalse", "ReadyUnknown", "both", "flap", "cleared"):
-            for off in (-1, 0, 1):
-                for f in ("none", "claimList", "nodeList", "annotate", "delete", "poolGet"):
-                    if tier == "quick" and f != "none" and (off != 0 or cond not in ("BadDisk", "both")):
+            for off in OFFS:
+                if tier == "quick" and kind == "standalone" and cond not in ("BadDisk", "flap") and off not in (-500, -1, 0):
+                    continue
+                scenario(kind, 6, 2, off, "none", cond=cond)
+            for f in REPAIR_FAULTS:
+                for off in OFFS_FAULT:
+                    if tier == "quick" and (cond not in ("BadDisk", "both") or (off != 0 and kind == "standalone")):
                         continue
                     scenario(kind, 6, 2, off, f, cond=cond)
+    # (c) read faults while the scope is over the budget (a failed read must not be taken for "no unhealthy nodes")
+    for kind in ("pool", "standalone"):
+        for f in ("nodeList", "nodeList404", "nodeListConflict", "claimList", "claimList404"):
+            scenario(kind, 10, 4, 0, f, tag=":over")
+            scenario(kind, 10, 4, 0, f, term=2, tag=":over")
+    return behs
+
+
+def sys_repair_waves(tier, rng):
+    """multi-wave histories on the real controllers: a first wave of nodes turns unhealthy and is repaired (or deleted by
+    someone else); their Nodes are deleted in turn and linger, terminating; then more nodes of the same scope turn
+    unhealthy.  The breaker must keep counting the terminating ones while they exist."""
+    behs = []
+    combos = [(10, 2, 2), (10, 2, 1), (10, 1, 1), (5, 1, 1), (11, 3, 1), (11, 2, 1), (6, 1, 2), (3, 1, 1)]
+    if tier == "quick":
+        combos = combos[:6]
+    for kind in ("pool", "standalone"):
+        pool = "p" if kind == "pool" else ""
+        for n, k1, k2 in combos:
+            for first in ("repaired", "deleted-by-env", "gone"):
+                if tier == "quick" and first == "gone" and (n, k1, k2) not in ((10, 2, 2), (5, 1, 1)):
+                    continue
+                steps = [{"a": "Pool", "name": "p"}]
+                for i in range(1, n + 1):
+                    steps.append(claim_step("k%02d" % i, pool, -1, "w%02d" % i))
+                    steps.append(node_step("v%02d" % i, "w%02d" % i, pool, "True", {"BadDisk": "False"}))
+                w1 = ["%02d" % i for i in range(1, k1 + 1)]
+                w2 = ["%02d" % i for i in range(k1 + 1, k1 + k2 + 1)]
+                steps.append(tick(10000))
+                steps += [{"a": "SetCond", "name": "v" + x, "type": "BadDisk", "status": "True"} for x in w1]
+                steps.append(tick(70000))
+                for x in w1:
+                    if first == "repaired":
+                        steps.append({"a": "Repair", "name": "v" + x})
+                    else:
+                        steps.append({"a": "UserDelete", "name": "k" + x})
+                # the lifecycle controller finalizes the deleted claims: their Nodes are deleted and drain (or are gone)
+                for x in w1:
+                    steps.append({"a": "NodeGone" if first == "gone" else "NodeDelete", "name": "v" + x})
+                steps.append(tick(80000))
+                steps += [{"a": "SetCond", "name": "v" + x, "type": "BadDisk", "status": "True"} for x in w2]
+                steps.append(tick(140000 - 1))
+                steps += [{"a": "Repair", "name": "v" + x} for x in w2]
+                steps.append(tick(140000))
+                steps += [{"a": "Repair", "name": "v" + x} for x in w2]
+                steps += [{"a": "Repair", "name": "v" + x} for x in w2]
+                behs.append({"cfg": {"policies": POL2}, "steps": steps, "tag": "repair-waves:%s:n%d:%d+%d:%s" % (kind, n, k1, k2, first)})
     return behs
 
 
 def sys_liveness(tier, rng):
     """the lifecycle controller's liveness path inside the reapers world (Reapers_Trace evaluates G_C16_Liveness)"""
     behs = []
-    for kind, T in (("launch", 300), ("registration", 900)):
+    for kind, Ts in (("launch", 300), ("registration", 900)):
         for created in (0, 13):
-            for off in (-1, 0, 1):
-                for f in ("none", "poolGet", "poolPatch", "delete"):
-                    if tier == "quick" and f != "none" and off != 0:
+            for f in ("none", "poolGet", "poolGet404", "poolPatch", "delete"):
+                for off in (OFFS if f == "none" else OFFS_FAULT):
+                    if tier == "quick" and ((f != "none" and off != 0) or (created == 13 and off in (-1000, 500, 1))):
                         continue
+                    T = (created + Ts) * 1000
                     steps = [{"a": "Pool", "name": "p"}]
                     if created:
-                        steps.append({"a": "Tick", "to": created})
+                        steps.append(tick(created * 1000))
                     if kind == "launch":
                         steps.append(claim_step("c3", "p", -1, "", launched="Unknown", registered="Unknown", instance=False))
                         prov = "err"
                     else:
                         steps.append(claim_step("c3", "p", -1, "i3", launched="True", registered="Unknown", instance=True))
                         prov = "ok"
-                    steps.append({"a": "Live", "name": "c3", "prov": prov})
-                    steps.append({"a": "Tick", "to": created + T // 2})
-                    steps.append({"a": "Live", "name": "c3", "prov": prov})
-                    steps.append({"a": "Tick", "to": created + T + off})
-                    lv = {"a": "Live", "name": "c3", "prov": prov, "faults": []}
+                    rec = {"a": "Live", "name": "c3", "prov": prov}
+                    steps += [dict(rec), tick(T // 2), dict(rec), tick(T + off)]
+                    lv = dict(rec, faults=[])
                     if f == "poolGet":
                         lv["faults"] = [fault("get", "NodePool", 1)]
+                    elif f == "poolGet404":
+                        lv["faults"] = [fault("get", "NodePool", 1, "NotFound")]
                     elif f == "poolPatch":
                         lv["faults"] = [fault("patch", "NodePool", 1, "Conflict", sub="status")]
                     elif f == "delete":
                         lv["faults"] = [fault("delete", "NodeClaim", 1, rng.choice(["Server", "Conflict"]))]
-                    steps += [lv, {"a": "Live", "name": "c3", "prov": prov}]
-                    if off < 0:
-                        steps += [{"a": "Tick", "to": created + T}, {"a": "Live", "name": "c3", "prov": prov}]
-                    behs.append({"cfg": {"policies": []}, "steps": steps, "tag": "live:%s:c%d:%+d:%s" % (kind, created, off, f)})
-    # the conditions are stamped by the controller itself, later than the claim's creation: the timeout runs from the stamp
-    for kind, T in (("launch", 300), ("registration", 900)):
-        for off in (-1, 0, 1):
-            prov = "err" if kind == "launch" else "ok"
-            steps = [{"a": "Pool", "name": "p"},
-                     claim_step("c3", "p", -1, "", launched="", registered="", instance=False, noFinalizer=True),
-                     {"a": "Tick", "to": 40}, {"a": "Live", "name": "c3", "prov": prov}, {"a": "Live", "name": "c3", "prov": prov},
-                     {"a": "Tick", "to": 40 + T - 2}, {"a": "Live", "name": "c3", "prov": prov}]
-            # approach second by second (the controller's own Sleep(1s) after a patch may have moved the stamp by a second)
-            for t in range(40 + T - 1, 40 + T + 3 + off):
-                steps += [{"a": "Tick", "to": t}, {"a": "Live", "name": "c3", "prov": prov}]
-            behs.append({"cfg": {"policies": []}, "steps": steps, "tag": "live-late-stamp:%s:%+d" % (kind, off)})
+                    steps += [lv, dict(rec)]
+                    approach(steps, T, off, rec)
+                    behs.append({"cfg": {"policies": []}, "steps": steps, "tag": "live:%s:c%d:%+dms:%s" % (kind, created, off, f)})
+    # the conditions are stamped by the controller itself, later than the claim's creation (at 40.4 s, stored as 40 s)
+    for kind, Ts in (("launch", 300), ("registration", 900)):
+        prov = "err" if kind == "launch" else "ok"
+        rec = {"a": "Live", "name": "c3", "prov": prov}
+        steps = [{"a": "Pool", "name": "p"},
+                 claim_step("c3", "p", -1, "", launched="", registered="", instance=False, noFinalizer=True),
+                 tick(40400), dict(rec), dict(rec), tick((40 + Ts - 2) * 1000), dict(rec)]
+        for t in range((40 + Ts - 1) * 1000, (40 + Ts + 3) * 1000, 500):
+            steps += [tick(t - 1), dict(rec), tick(t), dict(rec)]
+        behs.append({"cfg": {"policies": []}, "steps": steps, "tag": "live-late-stamp:%s" % kind})
     # the condition changed after creation (Launched went False at t=20, Registered went False at t=20): the timeout runs
     # from the condition's last transition, not from the claim's creation
-    for kind, T in (("launch", 300), ("registration", 900)):
+    for kind, Ts in (("launch", 300), ("registration", 900)):
         prov = "err" if kind == "launch" else "ok"
+        rec = {"a": "Live", "name": "c3", "prov": prov}
         if kind == "launch":
             steps = [{"a": "Pool", "name": "p"}, claim_step("c3", "p", -1, "", launched="Unknown", registered="Unknown", instance=False),
-                     {"a": "Tick", "to": 20}, {"a": "SetClaim", "name": "c3", "launched": "False"}]
+                     tick(20000), {"a": "SetClaim", "name": "c3", "launched": "False"}]
         else:
             steps = [{"a": "Pool", "name": "p"}, claim_step("c3", "p", -1, "i3", launched="True", registered="Unknown", instance=True),
-                     {"a": "Tick", "to": 20}, {"a": "SetClaim", "name": "c3", "registered": "False"}]
-        steps.append({"a": "Live", "name": "c3", "prov": prov})
-        for t in range(T - 2, T + 24):
-            steps += [{"a": "Tick", "to": t}, {"a": "Live", "name": "c3", "prov": prov}]
+                     tick(20000), {"a": "SetClaim", "name": "c3", "registered": "False"}]
+        steps.append(dict(rec))
+        for t in list(range(Ts - 2, Ts + 19)) + [Ts + 20]:
+            steps += [tick(t * 1000), dict(rec)]
+        steps[-2:-2] = [tick((Ts + 20) * 1000 - 500), dict(rec), tick((Ts + 20) * 1000 - 1), dict(rec)]
         behs.append({"cfg": {"policies": []}, "steps": steps, "tag": "live-restamped:%s" % kind})
     return behs
 
 
 def systematic(tier, rng):
-    return sys_expiration(tier, rng) + sys_gc(tier, rng) + sys_repair(tier, rng) + sys_liveness(tier, rng)
+    return sys_expiration(tier, rng) + sys_gc(tier, rng) + sys_repair(tier, rng) + sys_repair_waves(tier, rng) + sys_liveness(tier, rng)
 
 
 # ---------------------------------------------------------------------- recording / accounting
